@@ -7,6 +7,7 @@ import UPVerif.Core.Compile.CER
 import UPVerif.Core.Compile.Invariant
 import UPVerif.Core.Compile.DCR
 import UPVerif.Core.Compile.QR
+import UPVerif.Core.Compile.Grounder
 /-!
 Line-protocol handler shared by C06 and C07: runs the executable model of a compiler on one case
 
@@ -22,7 +23,7 @@ The simplifier handed to the compiler models is property C11's verified model co
 `env.simplifier` (no problem: no static fluents), as in Drv/C01.lean.
 -/
 namespace UPVerif.Drv.C06
-open UPVerif UPVerif.Compile
+open UPVerif UPVerif.Compile UPVerif.Compile.Ground
 
 def simpTotal (cfg : SimpCfg) (e : Expr) : Expr :=
   match simplify cfg e with
@@ -57,8 +58,35 @@ def compiledSexp (P : Problem) (c : Compiled) : Sexp :=
     .list (.atom "traj" :: sortSexps (c.prob.traj.map exprToSexp)),
     .list (.atom "init" :: initSexp c.prob)]
 
+/-- the Grounder (Core/Compile/Grounder.lean), `prune_actions` True (the compiler's default; simplifier =
+    `Simplifier(env, problem)`: C11's model with the problem's static fluents, initial values and defaults) and False
+    (`env.simplifier`), every ground action IN ORDER with its name, its `trace_back_map` entry, its preconditions in order
+    and its effects:
+
+  (grounded (prune (ground <name> <origin> (arg…) (pre e…) (effs eff…))…) (noprune (ground …)…) (goals…) (traj…) (init…)) -/
+def groundSexps (P : Problem) (c : GroundCompiled) : List Sexp :=
+  (c.prob.actions.zip c.back).map (fun ab =>
+    let o : String := match P.actions[ab.2.1]? with
+      | some oa => oa.name
+      | none => "?"
+    .list [.atom "ground", .atom ab.1.name, .atom o, .list (ab.2.2.map .atom),
+           .list (.atom "pre" :: ab.1.pre.map exprToSexp), .list (.atom "effs" :: ab.1.effs.map effectToSexp)])
+
+def staticCfg (P : Problem) : SimpCfg :=
+  { tenv := P.types, statics := staticFluents P, init := P.init,
+    defaults := P.fluents.filterMap (fun d => d.default.map (fun e => (d.ref, e))), funs := [] }
+
+def handleGrounder (P : Problem) : Sexp :=
+  match grounderCompile (simpTotal (staticCfg P)) true P, grounderCompile (simpTotal (SimpCfg.empty P.types)) false P with
+  | some c1, some c0 =>
+    .list [.atom "grounded", .list (.atom "prune" :: groundSexps P c1), .list (.atom "noprune" :: groundSexps P c0),
+      .list (.atom "goals" :: sortSexps (c1.prob.goals.map exprToSexp)),
+      .list (.atom "traj" :: sortSexps (c1.prob.traj.map exprToSexp)),
+      .list (.atom "init" :: initSexp c1.prob)]
+  | _, _ => .list [.atom "raised"]
+
 def notModelled : List String :=
-  ["grounder", "ncr", "utf", "tcr", "uin",
+  ["ncr", "utf", "tcr", "uin",
    "pipe:qr+cer", "pipe:qr+dcr", "pipe:sir+btr", "pipe:grounder+cer", "pipe:qr+cer+dcr+ncr", "pipe:utf+qr"]
 
 def handle : Sexp → Sexp
@@ -87,6 +115,7 @@ def handle : Sexp → Sexp
         match qrCompile simp P with
         | none => .list [.atom "raised"]
         | some c => compiledSexp P c
+      else if comp == "grounder" then handleGrounder P
       else if notModelled.contains comp then .list [.atom "not-modelled"]
       else .atom "bad-case"
   | _ => .atom "bad-case"
